@@ -26,7 +26,7 @@ from fractions import Fraction
 
 LA, NU, IN, SF, ST, UT, UN, LM = ("src/Linear_Algebra.cpp", "src/Numerics.cpp", "src/Integration.cpp", "src/Special_Functions.cpp",
                                   "src/Statistics.cpp", "src/Utilities.cpp", "src/Natural_Units.cpp", "include/libphysica/List_Manipulations.hpp")
-N, I, Q, B = "Nat", "Int", "Rat", "Bool"
+N, I, Q, B, S = "Nat", "Int", "Rat", "Bool", "String"
 
 
 def E(name, file, anchor, k, params, atoms, pick=None):
@@ -72,8 +72,8 @@ TABLE = [
     E("Interpolation_lengths", NU, r"^Interpolation::Interpolation\(const std::vector<double>& arg_values", 0, [("x_size", N), ("f_size", N)],
       {"x_values.size()": ("x_size", N), "function_values.size()": ("f_size", N), "arg_values.size()": ("x_size", N), "func_values.size()": ("f_size", N)}),
     E("Interpolation_short", NU, r"^Interpolation::Interpolation\(const std::vector<double>& arg_values", 1, [("n", N)], {"N": ("n", N), "x_values.size()": ("n", N), "arg_values.size()": ("n", N)}),
-    E("Interpolation_order", NU, r"^Interpolation::Interpolation\(const std::vector<double>& arg_values", 2, [("x_prev", Q), ("x_i", Q)],
-      {"x_values[i]": ("x_i", Q), "x_values[i - 1]": ("x_prev", Q), "arg_values[i]": ("x_i", Q), "arg_values[i - 1]": ("x_prev", Q)}),
+    E("Interpolation_order", NU, r"^Interpolation::Interpolation\(const std::vector<double>& arg_values", 0, [("x_prev", Q), ("x_i", Q)],
+      {"x_values[i]": ("x_i", Q), "x_values[i - 1]": ("x_prev", Q), "arg_values[i]": ("x_i", Q), "arg_values[i - 1]": ("x_prev", Q)}, pick="[i - 1]"),
     E("Interpolation_table_row", NU, r"^Interpolation::Interpolation\(const std::vector<std::vector<double>>& data", 0, [("row_size", N)], {"data[i].size()": ("row_size", N)}),
     E("Locate_outside", NU, r"^unsigned int Interpolation::Locate\(double x\)", 0, [("x", Q), ("d0", Q), ("d1", Q)], {"x": ("x", Q), "domain[0]": ("d0", Q), "domain[1]": ("d1", Q)}),
     E("Locate_tolerated_left", NU, r"^unsigned int Interpolation::Locate\(double x\)", 1, [("x", Q), ("d0", Q), ("tol", Q)], {"x": ("x", Q), "domain[0]": ("d0", Q), "boundary_tolerance_left": ("tol", Q)}),
@@ -94,7 +94,8 @@ TABLE = [
     E("Inv_GammaP", SF, r"^double Inv_GammaP\(double p, double a\)", 0, [("a", Q)], {"a": ("a", Q)}),
     E("Round_digits", SF, r"^double Round\(double N, unsigned int digits\)", 0, [("digits", N)], {"digits": ("digits", N), "digits_max": ("gen_Round_digits_max", N)}),
     E("Inv_Erf_saturated", SF, r"^double Inv_Erf\(double p\)", 0, [("p", Q)], {"p": ("p", Q)}),
-    E("Inv_Erf_outside", SF, r"^double Inv_Erf\(double p\)", 1, [("p", Q)], {"p": ("p", Q)}),
+    E("Inv_Erf_saturated_minus", SF, r"^double Inv_Erf\(double p\)", 1, [("p", Q)], {"p": ("p", Q)}),
+    E("Inv_Erf_outside", SF, r"^double Inv_Erf\(double p\)", 2, [("p", Q)], {"p": ("p", Q)}),
     E("PMF_Binomial", ST, r"^double PMF_Binomial\(", 0, [("p", Q)], {"p": ("p", Q)}),
     E("CDF_Binomial", ST, r"^double CDF_Binomial\(", 0, [("p", Q)], {"p": ("p", Q)}),
     E("PMF_Poisson", ST, r"^double PMF_Poisson\(", 0, [("mu", Q), ("events", N)], {"expected_events": ("mu", Q), "events": ("events", N)}),
@@ -119,6 +120,18 @@ TABLE = [
     E("Inv_GammaP_probability", SF, r"^double Inv_GammaP\(double p, double a\)", 1, [("p", Q)], {"p": ("p", Q)}),
     E("Inv_GammaQ_probability", SF, r"^double Inv_GammaQ\(double q, double a\)", 0, [("q", Q)], {"q": ("q", Q)}),
     E("Locate_Closest_Location_empty", UT, r"^unsigned int Locate_Closest_Location\(", 0, [("n", N)], {"sorted_list.empty()": ("decide (n = 0)", B), "sorted_list.size()": ("n", N)}),
+    E("Minimize_deltas", NU, r"^std::vector<double> Minimization::minimize\(std::vector<double>& starting_point, std::vector<double>& deltas", 0, [("n", N), ("m", N)],
+      {"starting_point.empty()": ("decide (n = 0)", B), "starting_point.size()": ("n", N), "deltas.size()": ("m", N)}),
+    E("Arithmetic_Mean", ST, r"^double Arithmetic_Mean\(", 0, [("n", N)], {"data.empty()": ("decide (n = 0)", B), "data.size()": ("n", N)}),
+    E("Median", ST, r"^double Median\(", 0, [("n", N)], {"data.empty()": ("decide (n = 0)", B), "data.size()": ("n", N)}),
+    E("Variance", ST, r"^double Variance\(", 0, [("n", N)], {"data.empty()": ("decide (n = 0)", B), "data.size()": ("n", N)}),
+    E("Weighted_Average", ST, r"^std::vector<double> Weighted_Average\(", 0, [("n", N)], {"data.empty()": ("decide (n = 0)", B), "data.size()": ("n", N)}),
+    E("Matrix_Resize", LA, r"^void Matrix::Resize\(int row, int col\)", 0, [("row", I), ("col", I)], {"row": ("row", I), "col": ("col", I)}),
+    E("Matrix_Assign", LA, r"^void Matrix::Assign\(int row, int col, double entry\)", 0, [("row", I), ("col", I)], {"row": ("row", I), "col": ("col", I)}),
+    E("Integrate_MC_region", IN, r"^double Integrate_MC\(", 0, [("region_size", N)], {"region.empty()": ("decide (region_size = 0)", B), "region.size()": ("region_size", N)}),
+    E("Integrate_MC_ncalls", IN, r"^double Integrate_MC\(", 1, [("ncalls", I), ("method", S)], {"ncalls": ("ncalls", I), "method": ("method", S)}),
+    E("PDF_Chi_Bar_Square_weight", ST, r"^double PDF_Chi_Bar_Square\(", 0, [("weight", Q)], {"weight": ("weight", Q)}, pick="weight"),
+    E("CDF_Chi_Bar_Square_weight", ST, r"^double CDF_Chi_Bar_Square\(", 0, [("weight", Q)], {"weight": ("weight", Q)}, pick="weight"),
     E("Log_Likelihood_Poisson_Binned", ST, r"^double Log_Likelihood_Poisson_Binned\(", 1, [("n_obs", N), ("n_bins", N), ("n_bkg", N)],
       {"N_observed_binned.size()": ("n_obs", N), "N_bins": ("n_bins", N), "N_prediction_binned.size()": ("n_bins", N), "expected_background_binned.size()": ("n_bkg", N)}),
     E("Sample_Metropolis_unbounded", ST, r"^std::vector<double> Sample_Metropolis\(", 0, [("n", N)], {"domain.size()": ("n", N)}),
@@ -255,7 +268,7 @@ def subst(e, mp):
     k = e[0]
     if k == "id":
         return mp.get(e[1], e)
-    if k == "num":
+    if k == "num" or k == "str":
         return e
     if k == "mem":
         return ("mem", subst(e[1], mp), e[2])
@@ -276,7 +289,7 @@ def subst(e, mp):
 # parser (C++ expression subset)  ->  AST tuples
 # ------------------------------------------------------------------------------------------------------------------
 
-TOK = re.compile(r"\s*(?:(\d+\.\d*(?:[eE][+-]?\d+)?|\.\d+(?:[eE][+-]?\d+)?|\d+[eE][+-]?\d+|\d+)|([A-Za-z_][A-Za-z_0-9]*(?:::[A-Za-z_][A-Za-z_0-9]*)*)|(\|\||&&|==|!=|<=|>=|[<>!+\-*/()\[\].,]))")
+TOK = re.compile(r"\s*(?:(\d+\.\d*(?:[eE][+-]?\d+)?|\.\d+(?:[eE][+-]?\d+)?|\d+[eE][+-]?\d+|\d+)|([A-Za-z_][A-Za-z_0-9]*(?:::[A-Za-z_][A-Za-z_0-9]*)*)|(\|\||&&|==|!=|<=|>=|[<>!+\-*/%()\[\].,])|(\"[^\"\\\n]*\"))")
 
 
 def tokenize(s):
@@ -286,7 +299,7 @@ def tokenize(s):
         m = TOK.match(s, pos)
         if not m or m.end() == pos:
             raise ParseError("cannot tokenize at `%s`" % s[pos:pos + 12])
-        out.append(("num", m.group(1)) if m.group(1) else ("id", m.group(2)) if m.group(2) else ("op", m.group(3)))
+        out.append(("num", m.group(1)) if m.group(1) else ("id", m.group(2)) if m.group(2) else ("op", m.group(3)) if m.group(3) else ("str", m.group(4)))
         pos = m.end()
     return out
 
@@ -343,8 +356,8 @@ class Parser:
 
     def p_mul(self):
         e = self.p_un()
-        while self.peek() == ("op", "*"):
-            self.take(); e = ("bin", "*", e, self.p_un())
+        while self.peek() in (("op", "*"), ("op", "%")):
+            o = self.take()[1]; e = ("bin", o, e, self.p_un())
         return e
 
     def p_un(self):
@@ -358,6 +371,8 @@ class Parser:
         k = self.peek()
         if k[0] == "num":
             self.take(); return ("num", k[1])
+        if k[0] == "str":
+            self.take(); return ("str", k[1])
         if k == ("op", "("):
             self.take(); e = self.p_or(); self.take(")"); return ("paren", e)
         if k[0] != "id":
@@ -387,7 +402,7 @@ class Parser:
 def flat(e):
     """normalised C++ text of an operand (key of the atom tables)"""
     k = e[0]
-    if k == "id" or k == "num":
+    if k == "id" or k == "num" or k == "str":
         return e[1]
     if k == "mem":
         return flat(e[1]) + "." + e[2]
@@ -475,6 +490,8 @@ def emit(e, atoms, want=None):
         if want is None:
             raise ParseError("literal %s without a typed partner" % e[1])
         return lit(e[1], want), want
+    if k == "str":
+        return e[1], S
     if k == "neg":
         s, t = emit(e[1], atoms, want)
         if t not in (I, Q):
@@ -487,8 +504,12 @@ def emit(e, atoms, want=None):
         sb, t2 = emit(b, atoms, ta)
         if t1 != t2:
             raise ParseError("mixed operand types in `%s`" % flat(e))
+        if t1 == N and e[1] == "%":
+            return "(" + sa + " % " + sb + ")", N       # the remainder of unsigned operands cannot wrap
         if t1 == N:
             raise ParseError("arithmetic on unsigned operands (`%s`) is not translated (wrap-around)" % flat(e))
+        if e[1] == "%":
+            raise ParseError("remainder of signed / floating operands is not translated")
         if t1 not in (I, Q):
             raise ParseError("arithmetic on %s" % t1)
         return "(" + sa + " " + e[1] + " " + sb + ")", t1
@@ -501,6 +522,8 @@ def emit(e, atoms, want=None):
         sb, t2 = emit(b, atoms, ta)
         if t1 != t2:
             raise ParseError("comparison of %s with %s in `%s %s %s`" % (t1, t2, flat(a), e[1], flat(b)))
+        if t1 == S and e[1] not in ("==", "!="):
+            raise ParseError("ordering of strings")
         if t1 == B:
             if e[1] not in ("==", "!="):
                 raise ParseError("ordering of booleans")
@@ -525,6 +548,8 @@ def _type_of(e, atoms):
     k = e[0]
     if k == "num":
         return None
+    if k == "str":
+        return S
     if k == "paren" or k == "neg":
         return _type_of(e[1], atoms)
     if k == "bin":
@@ -565,7 +590,7 @@ def inlined_note(e, env):
     return sorted(set(notes))
 
 
-CTYPE = {N: "unsigned int / size_t -> Nat (a comparison `… < 0` is false, as in the C++)", I: "int -> Int", Q: "double -> Rat (exact)", B: "bool -> Bool"}
+CTYPE = {S: "std::string -> String", N: "unsigned int / size_t -> Nat (a comparison `… < 0` is false, as in the C++)", I: "int -> Int", Q: "double -> Rat (exact)", B: "bool -> Bool"}
 
 
 def translate(repo):
@@ -812,7 +837,7 @@ def _light_inline(e, helpers, locals_, depth=0):
             return ("paren", _light_inline(Parser(tokenize(locals_[e[1]][1])).parse(), helpers, locals_, 1))
         except ParseError:
             return e
-    if k in ("id", "num"):
+    if k in ("id", "num", "str"):
         return e
     if k == "mem":
         return ("mem", _light_inline(e[1], helpers, locals_, depth), e[2])
@@ -839,7 +864,7 @@ def canon(e):
     if k == "num":
         q = Fraction(e[1])
         return (str(q.numerator) if q.denominator == 1 else "%d/%d" % (q.numerator, q.denominator)), 8
-    if k == "id":
+    if k == "id" or k == "str":
         return e[1], 8
     if k == "mem":
         return par(canon(e[1]), 8) + "." + e[2], 8
